@@ -125,7 +125,7 @@ def _big_stack():
 def run_driver(mode, path, timeout=3600, cap=3000):
     """The extracted model / specification on a program file, sharded over several
     processes (modes whose input is a program file); other modes run as one process."""
-    if mode not in ("run", "keys", "ref", "refw", "refa", "rc11s", "rc11w"):
+    if mode not in ("run", "keys", "ref", "refw", "refa", "refb", "rc11s", "rc11w"):
         p = subprocess.run([DRIVER, mode, path, "--cap", str(cap)], capture_output=True, text=True, timeout=timeout, preexec_fn=_big_stack)
         return p.stdout, p.returncode, p.stderr
     from concurrent.futures import ThreadPoolExecutor
